@@ -135,6 +135,19 @@ CLAIMS['C13'] = {
     'technique': 'Lean 4 proof (case analysis of the checksum stage) + model/implementation differential replay',
 }
 
+CLAIMS['C03'] = {
+    'text': 'DECODER (proof): Props/C03dec.lean on the L0 codec model (the same model C12 is proved about, tied to packet.go / chunk_*.go / param_*.go / error_cause_*.go by '
+            'differential replay of every generated and every hostile byte string): for EVERY byte string the decoder terminates with a packet or one of its listed '
+            'errors — the only panic outcomes are the explicit ones of the model, none reachable from packet.unmarshal —, consumes at most the bytes it was given, and a chunk\'s '
+            'decoding depends only on that chunk\'s own bytes (locality, D3). C03_state_guards_pinned pins the state gate of inbound DATA as extracted from the source. '
+            'ASSOCIATION LEVEL (exploration): the direct-drive sender harness feeds SACKs that the validation must reject (unknown TSNs, gap blocks outside the queue, stale '
+            'cumulative points) and checks that a rejected SACK leaves the logged state unchanged; the e2e partial-reliability scenarios feed FORWARD-TSN / I-FORWARD-TSN for '
+            'unknown streams and more streams than the accept backlog; every harness run executes under recover() — a panic of the implementation is a violation with the op log as replay. '
+            'NOT covered yet: hostile DATA / hostile RECONFIG at association level (pending: receiver and reset harnesses).',
+    'note': NOTE_COMMON,
+    'technique': 'Lean 4 proof (totality and locality of the decoder model) + model/implementation differential replay on well-formed and malformed packets + direct-drive and e2e exploration',
+}
+
 SENDER_NOTE = (NOTE_COMMON + ' The L0 model Model/Sender.lean is hand-written (send / acknowledgement paths of association.go, payload_queue.go, '
                'queue.go as a list, stream.go write half); its window tests, window updates, congestion formulas, chunk sizes and the two tests of '
                'onBufferReleased are NOT re-typed: they are Gen.* defs the translator regenerates from those very expressions of /repo on every run '
